@@ -128,7 +128,7 @@ META = {
     "C01": {"level": "Seeded exploration of complete multi-client editing sessions (2-5 real clients against the real server, 20-200 steps, whole public editing alphabet, offline stretches, re-attach, rejoin, vanish) with and without message faults (lost request/response, delayed stale duplicates). Oracles: byte-identical Marshal() of all replicas and of the server's rebuilt document after bounded quiescence (3 rounds), equal content whenever two replicas hold equal version vectors, no un-faulted call fails, clone == root.", "note": _common},
     "C02": {"level": "Same sessions under snapshot thresholds/intervals {1,2,3,5,10,500}, cache size 1/10, purges, late attachers, starved/lazy/eager background snapshot writer, server restarts, lost messages. Oracles: snapshot-fed == change-fed replicas after quiescence and at equal vectors, server rebuild at head and at an earlier seq with warm cache == after purge == replicas with the same vector; further edits on snapshot-fed replicas keep converging.", "note": _common},
     "C03": {"level": "Delete-heavy sessions with GC on, long offline stretches, housekeeping deactivation after clock jumps; every run is executed a second time from its recorded step list in a world with GC disabled everywhere: step outcomes and every replica's visible content at quiescence must be equal (GC twin), no sync / rebuild may fail.", "note": _common + "; three GC findings of the pinned tree are listed as known"},
-    "C04": {"level": "Both halves of the quantifier. Sequential schedules (message-level engine): every pull is compared on the wire with the stored log: exactly the foreign changes of (request checkpoint, response checkpoint], in order, once, no echo of own changes, checkpoints monotone and <= head; log shape serverSeq 1..N and (actor, clientSeq) unique per attachment; under lost/duplicated/stale requests and push-only syncs. Parallel schedules (step-level engine, profile c04_parallel): all attached clients sync / push-only sync / detach+re-attach at the same time, some requests are delivered twice with both copies in flight, compaction attempts run alongside; requests interleave at every storage call and every named-lock operation under a seeded scheduler; the same wire oracle (own changes recognised by author), conservation of every issued increment/key/token, log shape and convergence are evaluated on the result.", "note": _common + "; inside the step-level engine a request is atomic between two yield points (storage calls, named-lock operations): interleavings of pure in-memory code are not explored"},
+    "C04": {"level": "Both halves of the quantifier. Sequential schedules (message-level engine): every pull is compared on the wire with the stored log: exactly the foreign changes of (request checkpoint, response checkpoint], in order, once, no echo of own changes, checkpoints monotone and <= head; log shape serverSeq 1..N and (actor, clientSeq) unique per attachment; under lost/duplicated/stale requests and push-only syncs. Parallel schedules (step-level engine, profile c04_parallel): all attached clients sync / push-only sync / detach+re-attach at the same time, some requests are delivered twice with both copies in flight, compaction attempts run alongside, the server process may die at any yield point of the section (restart, retries); requests interleave at every storage call and every named-lock operation under a seeded scheduler; the same wire oracle (own changes recognised by author), conservation of every issued increment/key/token, log shape and convergence are evaluated on the result.", "note": _common + "; inside the step-level engine a request is atomic between two yield points (storage calls, named-lock operations): interleavings of pure in-memory code are not explored"},
     "C05": {"category": "fault_enumeration", "level": "For a chosen pushing sync of each generated session exactly one fault is placed, enumerated by run index over every storage call that request makes (the call list is learnt from the tree at run time) x {error before, error after, crash before, crash after} plus {request lost, response lost, stale duplicate}; the client retries the identical pack, optionally after further edits. Oracles: conservation (every issued increment counted once, every key present, every appended token exactly once in order on every replica), each (actor, clientSeq) stored once, serverSeq gap-free, replicas and server converge, the un-faulted retry succeeds.", "note": _common + "; the window between CreateChangeInfos and UpdateClientInfoAfterPushPull is a known finding (upstream's own skipped test)"},
     "C06": {"level": "Wire monitor on every pushed change and every response of C01/C03-style sessions (plus GC-free documents with wire opt-out attachments): vv[self]==lamport, vv covers and lamport exceeds everything the replica had applied before, author timestamps grow, (lamport, actor) unique; every minimum vector handed out is compared, actor by actor, with the REAL document of every client the server still counts as attached (including vanished ones).", "note": _common + "; presence-only changes carry no clock by design and are exempt"},
     "C08": {"level": "Sessions in which Update callbacks fail after j<=k edits (returned error, panic), exceed a size limit or break schema rules, interleaved with remote packs, snapshots and GC: content, pending changes, checkpoint, version vector and undo history are compared before/after every failed Update; Root() == Marshal() after every step.", "note": _common + "; undo/redo inside these sessions is left to C14"},
@@ -139,7 +139,7 @@ META = {
     "C07": {"level": "Differential check inside C01/C02-style sessions (remote changes, snapshot-fed rebuilds with thresholds 2-500, GC on or entirely off, long offline stretches, moves, splits): before EVERY local Update of a replica a twin is built - a brand-new Document that receives only the replica's visible content (YSON export/import; no tombstones, no split nodes, no dead array slots, no history) - and the same editing calls (same paths, same indices, resolved by the same executor against the visible state: object set/delete/create, array add/insert/delete/set/move*, text edit/style with UTF-16 and surrogate pairs, counters, tree insert/delete/style by index and by path) are applied to both; afterwards the canonical visible content (text as attribute runs, trees as XML) must be equal, and a call that succeeded on the replica must succeed on the twin. Plus plain lookups after every update and sync: Array.Len() == number of visible elements, Get(i) walks them in order, text length == sum of visible runs (UTF-16), tree Len() == size computed from its XML.", "note": _common + "; the reference is the implementation itself on a tombstone-free reconstruction, NOT an independent re-implementation of text/array/tree semantics: a defect that also shows on clean structures is not seen (the property's rationale leaves clean structures to the unit tests); the dedup counter is excluded (its state does not survive the export: finding of C18)"},
     "C09": {"level": "LOSSLESS half (profile c09_lossless, C01-style sessions with snapshots, GC, lost messages): every pack that crosses the simulated wire is decoded and re-encoded and must come out equal (proto.Equal); every change the server stored must decode (ChangeInfo.ToChange) to the change that was pushed; at every sync point every replica's document goes through SnapshotToBytes/BytesToSnapshot and the result must have the same content, the same GarbageLen and the same LOGICAL STRUCTURE - every node of every text, tree, array and object with identity, tombstone ticket, insertion links (insPrev/insNext, InsPrevID/InsNextID), merge stamps and attribute history, read by reflection over the CRDT node types (index structures and caches excluded), so a field the encoder forgets is a difference - and a second round trip must be a fixed point. HOSTILE half (profile c09_hostile): the same sessions with the fault kind CORRUPTION - request bodies, response bodies and stored bytes (operations of a change, snapshots, plain and compressed) are mutated at byte level (flip, truncate, splice, drop, length prefix) and at structure level (a populated field of the decoded protobuf at any depth, also inside nested element encodings, is cleared / zeroed / duplicated / truncated), and mutated real encodings are handed to BytesToSnapshot / BytesToObject / BytesToArray / BytesToTree / FromChangePack and, when accepted, used. Decided there: the server process survives and every call returns; recovered panics are collected and reported at the end of the run.", "note": _common + "; on the pinned tree hostile bytes that still decode reach executing code unvalidated and panic at more than 15 sites (known finding hostile-bytes-reach-executing-code, a broad one: a NEW panic site in a decoder is therefore not told apart from the known ones - seeded change C09-1 is missed); the fix 54b7dee2 removed the one consequence that killed the process"},
     "C13": {"level": "An intruder inside ordinary editing sessions: project 0 (victim, owner user0) runs a C01-style session with real clients, snapshots and automatic revisions; project 1 belongs to another user. Between the victim's steps the intruder calls a procedure of YorkieService / AdminService / ClusterService - the list is read from the generated service descriptors at run time, requests are filled field by field (by field name) with the victim's real client id, document id, document key, project id/name, revision id, or with its own client/document plus one identifier of the victim - under every credential it can present {none, garbage, its own project key, its own user token, its own project secret, its public key as secret; none/wrong cluster secret}. Oracles per call: (1) every stored row of every memdb table that is not the intruder's own (project, user, clients, documents and their rows) is byte-identical before and after; (2) a call that names something of the victim or presents no valid credential is refused, with not-found / unauthenticated / permission-denied (failed-precondition and invalid-argument only if the twin call gets the same); (3) existence is not revealed: the twin call naming identifiers that exist nowhere gets the same code; (4) no answer carries a value of the victim's documents; (5) no stream is opened, no handler panics, every call returns; plus the C01 oracles on the victim's session (identical document keys in two projects are different documents).", "note": _common + "; which principal an admin handler reads (project or user) is extracted from admin_server.go at build time; the auth webhook is not configured; a credential of the wrong kind makes admin handlers panic on the pinned tree (known finding); account enumeration through LogIn/ChangePassword (unauthenticated vs not-found) is outside the property (it speaks of clients and documents) and not judged"},
-    "C16": {"level": "Step-level engine: after a sequential set-up all clients talk to the real server AT THE SAME TIME (1-3 syncs each, push-only syncs, detach+re-attach, explicit deactivation, duplicated requests with both copies in flight) together with admin compaction, the housekeeping deactivation body after a 25 h silence and the server's own background goroutines (snapshot writer). Every task runs on its own goroutine; exactly one runs at a time and gives control back at every storage call, every pkg/locker operation and every spin on an instrumented mutex (build overlay, nothing written to /repo); a seeded scheduler picks who continues. The scheduler keeps a model of the named RW locks (writer, readers, announced writers = Go's writer preference) and only resumes a task whose lock request the model admits: a state with unfinished tasks and nobody admissible is a DEADLOCK, reported with the wait-for relation; every acquisition is compared with the documented order doc -> pull -> attachment -> push (lock-order oracle); every request must return; afterwards the C01/C04/C05 oracles (convergence incl. server rebuild, conservation, log shape, clone == root, no un-faulted failure) are evaluated. A death of the process by the Go runtime (fatal error: unlock of unlocked mutex, concurrent map access, panic on a server goroutine) is reproduced alone, minimised out of process and reported as a violation.", "note": _common + "; NOT covered: the race-detector half of the property (the scheduler's hand-off orders all memory accesses, so unsynchronised accesses between two yield points are invisible - seeded change C16-1 is out of reach), watch streams inside the same sections (C17 drives pubsub separately)"},
+    "C16": {"level": "Step-level engine: after a sequential set-up all clients talk to the real server AT THE SAME TIME (1-3 syncs each, push-only syncs, detach+re-attach, explicit deactivation, duplicated requests with both copies in flight) together with admin compaction, a SERVER CRASH as one more scheduling decision (the process dies at a yield point: requests in flight are lost, what was stored survives, the server restarts, clients retry), the housekeeping deactivation body after a 25 h silence and the server's own background goroutines (snapshot writer). Every task runs on its own goroutine; exactly one runs at a time and gives control back at every storage call, every pkg/locker operation and every spin on an instrumented mutex (build overlay, nothing written to /repo); a seeded scheduler picks who continues. The scheduler keeps a model of the named RW locks (writer, readers, announced writers = Go's writer preference) and only resumes a task whose lock request the model admits: a state with unfinished tasks and nobody admissible is a DEADLOCK, reported with the wait-for relation; every acquisition is compared with the documented order doc -> pull -> attachment -> push (lock-order oracle); every request must return; afterwards the C01/C04/C05 oracles (convergence incl. server rebuild, conservation, log shape, clone == root, no un-faulted failure) are evaluated. A death of the process by the Go runtime (fatal error: unlock of unlocked mutex, concurrent map access, panic on a server goroutine) is reproduced alone, minimised out of process and reported as a violation.", "note": _common + "; NOT covered: the race-detector half of the property (the scheduler's hand-off orders all memory accesses, so unsynchronised accesses between two yield points are invisible - seeded change C16-1 is out of reach), watch streams inside the same sections (C17 drives pubsub separately)"},
     "C17": {"level": "The real server/backend/pubsub package (PubSub, Subscriptions, BatchPublisher, cmap) under the step-level engine: up to 4 subscribers and 3 publishers on one document key Subscribe / Publish / Unsubscribe concurrently; the package's mutexes are rewritten in the build overlay into TryLock-spin-yield, so a seeded scheduler decides every interleaving at every mutex acquisition; simulated time (batch window, publish time-out) passes only when the scheduler says so. Consumers are prompt (drain after every step) or stalled. Oracles over the recorded history (events stamped with the scheduler's step number): a subscriber whose Subscribe returned before Publish was invoked and whose Unsubscribe was invoked after Publish returned - and that drains - receives an event of that publisher or a closed channel within a bounded linger (8 simulated seconds); nothing is received after Unsubscribe returned; the subscription map is empty once all have unsubscribed; no panic (send on closed channel) - also on the publisher's own goroutine (process death is reproduced and reported).", "note": "the pubsub package runs alone (no RPC layer, no WatchDocument stream); channel operations are not yield points (only mutex acquisitions, timers and task starts are); sampling, not proof"},
     "C19": {"level": "The five pair matrices (ranges x op1 x op2) are extracted at build time from test/complex/tree_concurrency_test.go of the CURRENT tree (data and op.run methods are upstream's, the runner is the simulator): every one of the 1592 cells x both sync orders x both assignments of the two operations to the two clients (equal lamports: the author's id decides which operation is later) is one simulated run with two change-fed clients and a third client fed by snapshot that edits on top of it; oracles: ToXML and Marshal equal on all three and on the server's rebuild, clone == root, no step fails. The quick tier already sweeps the whole matrix (6368 runs, ~40 s).", "note": _common + "; exhaustive over the declared matrix, exploration beyond it is C01's job", "technique": "deterministic simulation, exhaustive sweep of a finite matrix of two-client schedules"},
     "C20": {"level": "(a) the real mongo.ChangeStore is driven through the call protocol of mongo/client.go (ReplaceOrInsert+ExpandRange by writers, EnsureChanges+ChangesInRange by readers, eviction, fetch errors, changes stored by other nodes) against a ground-truth table with presence-only holes: served range == table range, the fetcher is never asked for a covered sequence number; (b) C02-style sessions with frequent rebuild steps: BuildInternalDocForServerSeq(s) at the head and at earlier points with the cache as it is == after Purge() == replicas holding the same vector, interleaved with pushes, purges, tiny caches, restarts.", "note": _common + "; the Mongo collection and the glue in mongo/client.go are a stub (a change there is not seen); pkg/cache LRU expiry is not covered"},
